@@ -11,6 +11,8 @@ import (
 	"flag"
 	"fmt"
 	"os"
+	"path/filepath"
+	"sort"
 	"strings"
 
 	"verifharness/lib"
@@ -41,6 +43,29 @@ var generators = map[string]func(rec *lib.Rec, r *lib.Rng, thorough bool){
 	"C13": genC13,
 }
 
+// runCorpus replays the minimised past failures and hand-picked boundary
+// cases of ../corpus/<prop>/*.ops (lines "S|M <op>") before anything generated.
+func runCorpus(rec *lib.Rec, prop string) {
+	dir := os.Getenv("VERIF_CORPUS")
+	if dir == "" {
+		return
+	}
+	files, _ := filepath.Glob(filepath.Join(dir, prop, "*.ops"))
+	sort.Strings(files)
+	for _, f := range files {
+		b, err := os.ReadFile(f)
+		if err != nil {
+			continue
+		}
+		for _, line := range strings.Split(string(b), "\n") {
+			if len(line) > 2 && (line[0] == 'S' || line[0] == 'M') && line[1] == ' ' {
+				rec.Op(line[:1], line[2:], true)
+				rec.Count("corpus")
+			}
+		}
+	}
+}
+
 func main() {
 	if len(os.Args) < 2 {
 		fmt.Fprintln(os.Stderr, "usage: harness gen|exec ...")
@@ -67,6 +92,9 @@ func main() {
 		var si, sn uint64 = 0, 1
 		fmt.Sscanf(*shard, "%d/%d", &si, &sn)
 		Shard, Shards = int(si), int(sn)
+		if Shard == 0 {
+			runCorpus(rec, os.Args[2])
+		}
 		g(rec, lib.NewRng(*seed).Fork(si), *tier == "thorough")
 		if err := rec.Close(nil); err != nil {
 			fmt.Fprintln(os.Stderr, err)
